@@ -27,14 +27,14 @@ TICKS = (0, 10, 50, 51, 99, 100, 130)
 MAPS = ((), ((50, 60000),), ((50, 60000), (100, 333333)), ((10, 1000), (51, 10**9), (99, 90500), (130, 120000)), ((1, 240000), (2, 30000)), ((10, 10**10),))  # the last map: 0.06 us per tick - neighbouring ticks share a microsecond
 
 PROBE_TMPL = '''
-ARGS = {args!r}      # bounds: ["tick", n] or ["us", n]
+ARGS = {args!r}      # bounds: ["tick", n], ["us", n] or ["none", 0] (bound omitted)
 EXPECT = {expect!r}  # exact [numerator, denominator] or "ValueError"
 TRACK = {track!r}
 def probe(c):
     from datetime import timedelta
     from fractions import Fraction
     from chartparse.instrument import Instrument, Difficulty
-    a = [x if k == "tick" else timedelta(microseconds=x) for k, x in ARGS]
+    a = [x if k == "tick" else None if k == "none" else timedelta(microseconds=x) for k, x in ARGS]
     try:
         r = c.notes_per_second(Instrument[TRACK[0]], Difficulty[TRACK[1]], *a)
     except ValueError:
@@ -54,13 +54,23 @@ def plan(tier, seed):
     nmax = 5 if tier == "quick" else 7
     nmaps = len(MAPS)
     lays = (0, 1, 2, 3)
-    shards = [("grid", mi, n, lay) for mi in range(nmaps) for n in range(1, nmax + 1) for lay in lays] + [("absent",), ("many",)]
+    shards = [("grid", mi, n, lay) for mi in range(nmaps) for n in range(1, nmax + 1) for lay in lays] + [("absent",), ("many",)] + [("meta", k) for k in range(len(SONGS))]
     return dict(shards=shards, bounds=dict(max_notes=nmax, tick_alphabet=list(TICKS), maps=[list(map(list, m)) for m in MAPS[:nmaps]], sustain_layouts=len(lays)), budget_s=600)
+
+
+# [Song] fields are not part of the statement ("an omitted start means time zero", whatever Offset says)
+SONGS = (
+    ["Offset = 2"],
+    ["Offset = 40"],
+    ["Offset = 0"],
+    ["Offset = 2", "PreviewStart = 3", "PreviewEnd = 5", "Difficulty = 4", 'Name = "n"', "Player2 = bass"],
+    ['MusicStream = "song.ogg"', 'Year = ", 2001"', "Offset = 1"],
+)
 
 
 def call(c, track, args):
     P = impl.P
-    a = [x if k == "tick" else timedelta(microseconds=x) for k, x in args]
+    a = [x if k == "tick" else None if k == "none" else timedelta(microseconds=x) for k, x in args]
     try:
         return c.notes_per_second(P.Instrument[track[0]], P.Difficulty[track[1]], *a)
     except ValueError:
@@ -123,6 +133,33 @@ def run_shard(shard, ctx):
             for e_ in marks:
                 check(ctx, c, text, G, [["tick", s_], ["tick", e_]], oracle(nt, q(s_), q(e_)), "700 notes")
                 check(ctx, c, text, G, [["us", q(s_)], ["us", q(e_) + (s_ % 2)]], oracle(nt, q(s_), q(e_) + (s_ % 2)), "700 notes")
+        return
+    if shard[0] == "meta":
+        song = SONGS[shard[1]]
+        # (only the call forms of the typed interface: (), (start), (start, end); "end only" is not among them)
+        for mi in range(len(MAPS)):
+            tempo = ((0, 120000),) + MAPS[mi]
+            sync = ["0 = TS 4"] + ["%d = B %d" % x for x in tempo]
+            for n in (1, 2, 3):
+                for ticks in itertools.combinations(TICKS[:6], n):
+                    ctx.node()
+                    sus = [0] * n
+                    sus[0] = 5
+                    body = ["%d = N %d %d" % (t, i % 5, s_) for i, (t, s_) in enumerate(zip(ticks, sus))]
+                    text = mk(res=100, sync=sync, song_extra=song, tracks={"ExpertSingle": body})
+                    c = impl.parse(text)
+                    q = lambda t: impl.query(c, t)  # noqa: E731
+                    nt = [q(t) for t in ticks]
+                    lne = max(q(t + s_) for t, s_ in zip(ticks, sus))
+                    G = ("GUITAR", "EXPERT")
+                    what = "[Song] carries %r; notes at ticks %r" % (song, list(ticks))
+                    check(ctx, c, text, G, [], oracle(nt, 0, lne), what)
+                    for e in sorted({ticks[-1] + 10} | {t + d for t in ticks for d in (0, 1)}):
+                        check(ctx, c, text, G, [["tick", 0], ["tick", e]], oracle(nt, 0, q(e)), what)
+                        check(ctx, c, text, G, [["us", 0], ["us", q(e)]], oracle(nt, 0, q(e)), what)
+                    for s_ in sorted({t + d for t in ticks for d in (0, 1)}):
+                        check(ctx, c, text, G, [["tick", s_]], oracle(nt, q(s_), lne), what)
+                        check(ctx, c, text, G, [["us", q(s_)]], oracle(nt, q(s_), lne), what)
         return
     _, mi, n, lay = shard
     tempo = ((0, 120000),) + MAPS[mi]
